@@ -13,8 +13,8 @@ from checks import specmachine as sm
 PROPERTY = "C04"
 
 TIERS = {
-    "quick": {"runs": 2400, "chunk": 75, "budget_s": 75, "run_timeout_s": 60, "shrink_s": 40},
-    "thorough": {"runs": 60000, "chunk": 400, "budget_s": 900, "run_timeout_s": 60, "shrink_s": 120},
+    "quick": {"runs": 2400, "chunk": 75, "budget_s": 75, "run_timeout_s": 300, "shrink_s": 40, "chunk_timeout_s": 900},
+    "thorough": {"runs": 60000, "chunk": 400, "budget_s": 900, "run_timeout_s": 300, "shrink_s": 120, "chunk_timeout_s": 2700},
 }
 
 RULE = (
